@@ -27,7 +27,7 @@ class CliRun(FnSpec):
     modifies = "rely"
     may_raise = True
     check_guarantee = False
-    pure_exprs = ("' ⟶ '.join((x for x in keys[:i + 1]))",)
+    pure_exprs = ()
 
     def requires(self, F):
         return []
@@ -35,6 +35,8 @@ class CliRun(FnSpec):
     def init_ghost(self, eng, st):
         st.ghost["last_yaml"] = None
         st.ghost["n_run"] = 0
+        # a join over a generator that only builds the text of an error message: evaluated as an unknown pure value (A-DIAG)
+        self.pure_exprs = roles.diagnostic_joins(eng.fi.node)
 
     def after_opaque_call(self, eng, st_before, st_after, f, args, result, exc, anchor):
         st_after.ghost = dict(st_after.ghost)
@@ -51,6 +53,12 @@ class CliRun(FnSpec):
             eng.oblige(st, "post", "starts:once-after-the-service-section-was-merged", z3.BoolVal(bool(merges) and st.ghost["n_run"] == 0), anchor)
 
     def on_spec_call(self, eng, st, qual, args, anchor):
+        if qual == "_runner.run_application":
+            merges = [e for e in st.trace if e[0] == "spec_ret" and e[1] == MERGE]
+            eng.oblige(st, "post", "starts:once-after-the-service-section-was-merged", z3.BoolVal(bool(merges) and st.ghost["n_run"] == 0), anchor)
+            st.ghost = dict(st.ghost)
+            st.ghost["n_run"] = st.ghost["n_run"] + 1
+            return
         if qual != MERGE:
             return
         fn = eng.fi.node
@@ -65,8 +73,8 @@ class CliRun(FnSpec):
                        args["overrides"].t == ly if ly is not None else z3.BoolVal(False), anchor)
             return
         # the service merge: which section?
-        services = st.env.get("services")
-        svc = st.env.get("service")
+        services = st.env.get(roles.assigned_from_call(fn, "pop", 0))       # services = config.pop("services", {})
+        svc = st.env.get("service")                                          # the click option (parameter name = command line interface)
         if services is None or svc is None or strip_opt(services.ty).kind != "dict":
             eng.oblige(st, "post", "service:selection-ladder", z3.BoolVal(False), anchor)
             return
@@ -94,9 +102,11 @@ class CliRun(FnSpec):
         st = L.cur_st
         tr = st.trace[len(L.entry_st.trace):]
         stores = [e for e in tr if e[0] == "dstore"]
-        if "keys" in st.env and "key" in st.env and stores:
-            keys = Val.a(st.env["keys"].t)
-            key = st.env["key"].t
+        fn_ = L.eng.fi.node
+        n_keys, n_key = roles.assigned_from_listcomp(fn_, 0), roles.unpack_targets_from_call(fn_, "split", 0)[0]
+        if n_keys in st.env and n_key in st.env and stores:
+            keys = Val.a(st.env[n_keys].t)
+            key = st.env[n_key].t
             pat = None
             for n in __import__("ast").walk(L.eng.fi.node):
                 if isinstance(n, __import__("ast").Call) and __import__("ast").unparse(n.func) == "re.split" and isinstance(n.args[0], __import__("ast").Constant):
@@ -126,7 +136,7 @@ class CliRun(FnSpec):
         g = F.new_st.ghost
         own = [e for e in tr if e[0] == "new_exc"]
         out = []
-        if own and not [e for e in tr if e[0] == "opaque-raise" and "run_application" in str(e[4])]:
+        if own and not [e for e in tr if (e[0] == "opaque-raise" and "run_application" in str(e[4])) or (e[0] == "spec_raise" and e[1] == "_runner.run_application")]:
             out.append(("a-failing-command-starts-nothing", z3.BoolVal(g["n_run"] == 0)))
         return out
 
